@@ -5,16 +5,16 @@ import (
 	"encoding/json"
 	"fmt"
 	"net"
-	"strings"
 	"testing"
 	"time"
 
 	"github.com/samaritan-proxy/samaritan/host"
-	"github.com/samaritan-proxy/samaritan/stats"
 	"pgregory.net/rapid"
+	"strings"
 
 	"verif/harness/ref"
 	"verif/harness/sim"
+	"verif/harness/statpurge"
 	"verif/harness/tcpsim"
 	"verif/harness/vh"
 )
@@ -40,15 +40,9 @@ type statCase struct {
 	Ops     []sop  `json:"ops"`
 }
 
-func counter(svc, path string) uint64 {
-	i := strings.LastIndex(path, ".")
-	return stats.CreateScope("service." + svc + "." + path[:i+1]).Counter(path[i+1:]).Value()
-}
+func counter(svc, path string) uint64 { return statpurge.Counter(svc, path) }
 
-func gauge(svc, path string) uint64 {
-	i := strings.LastIndex(path, ".")
-	return stats.CreateScope("service." + svc + "." + path[:i+1]).Gauge(path[i+1:]).Value()
-}
+func gauge(svc, path string) uint64 { return statpurge.Gauge(svc, path) }
 
 type statInfo struct{ redirected, backendFailure, rejected, stopWithOpen bool }
 
